@@ -448,7 +448,7 @@ func runC19(c *Ctx) {
 		}
 	}
 	c.obF("R19.3", p.Fn("(*rt/middleware.Context).Respond"), "tabled-panic-sites", nPanic >= 3 && nPanic <= 5, "the tabled panic sites exist (missing producer, produce error)", fmt.Sprintf("%d request-reachable panics", nPanic))
-	c.obF("R19.3", p.Fn("(*rt/middleware.Context).BindValidRequest"), "tabled-consumer-miss-sites", n500 == 2, "exactly the two tabled consumer-miss sites exist", fmt.Sprintf("%d", n500))
+	c.obF("R19.3", p.Fn("(*rt/middleware.Context).BindValidRequest"), "tabled-consumer-miss-sites", n500 >= 1 && n500 <= 2, "the consumer-miss sites are the tabled ones (one per gate, or one shared by both)", fmt.Sprintf("%d", n500))
 }
 
 // allCallsShallow lists the call instructions written in f itself (helpers are not looked through).
@@ -467,9 +467,8 @@ func allCallsShallow(f *ssa.Function) []ssa.CallInstruction {
 func ruleAlternativeStorageFresh(c *Ctx, rule string) {
 	p := c.P
 	ba := p.Fn("(*rt/middleware.defaultRouteBuilder).buildAuthenticators")
-	reqCalls := callsIn(ba, "(*github.com/go-openapi/analysis.Spec).SecurityRequirementsFor")
-	if len(reqCalls) == 1 {
-		outer := sliceLoops(ba, vIs(reqCalls[0].Value()))
+	if alts, okAlts := requirementAlternatives(c, rule); okAlts {
+		outer := sliceLoops(ba, vIs(alts))
 		// the scheme->scopes table of an alternative is a map made inside that alternative's iteration
 		for _, st := range fieldStores(ba, routeAuthT, "Scopes") {
 			okM := len(outer) == 1
